@@ -30,11 +30,21 @@ CLAIMED = {
    text="Decides: the grader version and height handed to both graders for every height class; FCT burns applied only before 2.0, SPR winners paid only from 2.0; in both winner-payout functions exactly one PEG credit per element of Winners(), amount = Payout() and address = GetAddress() of the same element that is written to history; a factoid transaction is registered as a burn in exactly one of the 72 cells of its shape table (1 EC output to the burn address with amount 0, 1 FCT input, no FCT output) and the pFCT credit is that input's amount and address; previous winners are read for the block height and handed to the grader; no pointer to a per-loop variable is retained. Reports as a known genuine defect that the external id gating staking records (ExtIDs[1]) is never bound to the key the grader verifies (ExtIDs[2]). Does not decide the graders' verdicts or reward amounts (dependency).",
    note="Trusted: the pegnet grader modules, mainnet activation constants, go/ssa. Decision tables bind values by type-qualified field paths (e.g. factom.FactoidTransaction.ECOutputs); a binding that matches nothing makes the check fail as undecided rather than pass vacuously.",
    ref="DESIGN.md §2.6, §4 C11, Appendix B"),
+ "C12": dict(
+   technique="abstract decision tables (SCCP per height class; winner-presence scenarios; tolerance-band position table with a symbolic order oracle over derived symbols spr*k) + who-may-write over the SQL catalogue + schema rule + name-provenance check in InsertRates",
+   text="Decides for every height class the PEG pricing phase and height passed to InsertRates and which rate-combination function runs; that with no graded block or no winners neither rates are inserted nor held conversions executed at any height, and with winners rates are inserted before conversions execute; for both band functions and every era the band constants (1%/0.1%, 10%, 25%), inclusive edges and the outcome in each of the five positions of the OPR rate relative to the band (in-band value from the OPR winner; outside: error before 2.0.2, SPR entry with rate 0 from it), and the pass-through when one side is absent; that pn_rate is UNIQUE(height, token) and written by exactly one plain INSERT reachable only through InsertRates from SyncBlock (no UPDATE/DELETE/REPLACE anywhere); the PEG phase table of InsertRates and that the recorded token name and the issuance-lookup name agree. Does not decide numeric equality of inserted values with the winners' values for all inputs.",
+   note="Trusted: mainnet activation constants, SQLite UNIQUE, go/ssa; symbol order oracle assumes numeric conversions preserve order.",
+   ref="DESIGN.md §2.6, §4 C12, Appendix B"),
  "C13": dict(
    technique="abstract decision table: SCCP over go/ssa of the admission loop of applyTransactionBatch for height class x destination ticker (62) x zero-rate pattern, reading the verdict off the executable exits of the loop body; same for ValidatePegTx gating, conversions.Convert zero patterns and IsRejectedTx codes",
    text="Decides the complete admission matrix: for every height class, every destination asset and every zero/non-zero pattern of the two rates, which exits of the checking loop are executable - ZeroRatesError iff a rate is zero, PFCTOneWayError iff height >= 220346 and destination pFCT, PSMALLOneWayError iff height >= 274036 and destination in the 15 small-cap assets or PEG, else proceed; conversions into PEG are rejected with status -2 and skipped from 2.0 on (ValidatePegTx consulted iff height >= activation, with the executing height); Convert rejects zero rates always and zero averages from PIP-10; every reject sentinel maps to a distinct negative code. 10k abstract scenarios enumerate the space the property quantifies over. 'Leaves balances untouched' is the write-before-reject rule claimed under C03. Does not decide that every admitted conversion then executes with the right amount (C07).",
    note="Trusted: mainnet activation constants; the expected one-way set was transcribed by hand from the doc comment of config.OneWaySmallAssetsConversions (not parsed at check time); go/ssa.",
    ref="DESIGN.md §2.6, §4 C13, Appendix B"),
+ "C14": dict(
+   technique="abstract decision tables (SCCP per height class, no-fault scenario with callee inlining, valuation-loop table with the induction variable bound) + execution-order query on the specialised CFG + SSA dominance/provenance in SnapshotPayouts + SQL catalogue sequence and join rules + Scan/column agreement",
+   text="Decides: SnapshotPayouts is executable iff height >= 258796 and height % 144 == 0 with that height, the rate fallbacks by era (and reports the dead pre-2.0.2 fallback as a known genuine defect), no one-time adjustment at a snapshot height; at snapshot heights no balance-writing step can precede the snapshot; in SnapshotPayouts rotation dominates selection dominates credits on the block tx, cap = 4,500e8 x 144, credits are Payouts()[key] to addressMap[key] in PEG with history from the same map, valuation converts balance[i] at rates[i] into pUSD, PEG excluded, zero balances skipped, zero-rate assets skipped from 2.0.2; SnapshotCurrent is exactly delete-past, copy current->past, delete-current, copy pn_addresses->current as plain statements in order on the tx with errors propagated; the selection inner-joins past and current on address with MIN(current,past) generated for tickers 1..62; Scan slots of the four wide selects match the column order. Does not decide proportionality or the dust arithmetic (runtime values).",
+   note="Trusted: mainnet activation constants, SQLite evaluation of MIN/JOIN, go/ssa.",
+   ref="DESIGN.md §2.6, §4 C14, Appendix B"),
  "C15": dict(
    technique="abstract decision tables: sparse conditional constant propagation over go/ssa specialised per height class (all intervals/points of the activation constants x residue mod 144), must-pass-through and execution-order queries on the specialised CFG, constant evaluation of the reward arithmetic, who-may-call",
    text="Decides for every height class which scheduled-issuance function is executable and with which height: the 2.0.4 mint and its burn only at their activation heights, burn-address zeroing only at its two heights (right address, history rows only before 2.0.2), developer payouts iff height >= activation and height % 144 == 0; that at those heights the call lies on every non-failing path (cannot be skipped by unrelated conditions); that a step which debits amounts read from committed balances precedes every other balance write of the block; that each developer's credit equals percentage x total in both eras with totals 2,000 and 2,000x144 PEG, percentages summing to 100, history row = credit, ticker PEG; that these functions have no other caller; and mint-table sanity. The heights are enumerated exhaustively as equivalence classes, not sampled. Does not decide the mint amounts themselves (the table is the specification) nor behaviour under faults (C10).",
